@@ -229,15 +229,26 @@ def run(ctx):
     r.check(not g.calls("evalString"), "binding|rule-level-raw", "", "rule-level binding is evaluated at declaration time", g)
     g = prog.fn("ManifestLoaderImpl::actOnIncludeDecl")
     bfg = BranchFacts(g, kill="assign")
-    ef = g.calls("enterFile")
+    # the sites that enter a file: enterFile(path, scope, tok) itself, or a helper of the loader that forwards its scope parameter to it
+    ef = [(c, 1) for c in g.calls("enterFile")]
+    for c in g.calls():
+        h = prog.functions.get(c.get("fk")) if c.get("fk") else None
+        if h is None or h is g or h.is_lambda or h.cls != g.cls:
+            continue
+        inner = h.calls("enterFile")
+        if len(inner) == 1:
+            sc = strip_casts(arg_nodes(inner[0])[1])
+            idx = [i for i, p_ in enumerate(h.params) if sc is not None and sc.get("k") == "ref" and p_.get("did") == sc.get("did")]
+            if idx:
+                ef.append((c, idx[0]))
     okc = len(ef) == 2
     detail = ""
     if okc:
-        for c in ef:
+        for c, sidx in ef:
             st = bfg.at_node(c) or frozenset()
             is_incl = ("isInclude", True) in st
             is_sub = ("isInclude", False) in st
-            scope_arg = expr_str(arg_nodes(c)[1])
+            scope_arg = expr_str(arg_nodes(c)[sidx])
             if is_incl and "getCurrentScope" not in scope_arg:
                 okc, detail = False, "include does not reuse the current scope"
             if is_sub and "getCurrentScope" in scope_arg:
